@@ -83,12 +83,11 @@ fn status(iccma: bool) {
     std::mem::forget(r2);
 }
 
-/// an extension of 0..=2 arguments with arbitrary labels below 1000, in arbitrary order
-fn iccma_extension() {
+/// an ICCMA'23 extension of `len` arguments (concrete); the first label is symbolic below `bound`, the others concrete
+fn iccma_extension(len: usize, bound: u32) {
     let w = Iccma23Writer::default();
-    let len = nd::below(3) as usize;
-    let l0 = nd::below_capped(1000, 12) as usize;
-    let l1 = nd::below_capped(1000, 12) as usize;
+    let l0 = nd::below_capped(bound, 12) as usize;
+    let l1 = 307usize;
     let a0 = hooks::new_argument(0, l0);
     let a1 = hooks::new_argument(1, l1);
     let all = [&a0, &a1];
@@ -120,20 +119,15 @@ fn iccma_extension() {
         }
         None => require!(false, "C14: the witness line reads back"),
     }
-    reached!(len == 2, "an extension of two arguments");
     std::mem::forget(r);
 }
 
-const NAMES: [&str; 3] = ["a", "b1", "_x"];
-
-/// an Aspartix extension of 0..=2 arguments with labels chosen among three identifiers
-fn apx_extension() {
+/// an Aspartix extension: symbolic length 0..=2 over the concrete labels `n0`, `n1`
+fn apx_extension(n0: &str, n1: &str) {
     let w = AspartixWriter::default();
     let len = nd::below(3) as usize;
-    let i0 = nd::below(3) as usize;
-    let i1 = nd::below(3) as usize;
-    let a0 = hooks::new_argument(0, NAMES[i0].to_string());
-    let a1 = hooks::new_argument(1, NAMES[i1].to_string());
+    let a0 = hooks::new_argument(0, n0.to_string());
+    let a1 = hooks::new_argument(1, n1.to_string());
     let all = [&a0, &a1];
     let mut buf: Vec<u8> = Vec::new();
     let r = w.write_single_extension(&mut buf, &all[..len]);
@@ -141,11 +135,11 @@ fn apx_extension() {
     let mut want: Vec<u8> = Vec::new();
     want.push(b'[');
     if len >= 1 {
-        want.extend_from_slice(NAMES[i0].as_bytes());
+        want.extend_from_slice(n0.as_bytes());
     }
     if len >= 2 {
         want.push(b',');
-        want.extend_from_slice(NAMES[i1].as_bytes());
+        want.extend_from_slice(n1.as_bytes());
     }
     want.push(b']');
     want.push(b'\n');
@@ -153,19 +147,19 @@ fn apx_extension() {
     std::mem::forget(r);
 }
 
-/// a, b, c with a->b, b->c, c->a, b->b; one (symbolic) argument removed; the written file must list exactly the
-/// live arguments in creation order and the live attacks in insertion order
+/// a, b with a->b, b->b, b->a; one (symbolic) argument removed; the written file must list exactly the live arguments
+/// in creation order and the live attacks in insertion order
 fn apx_framework() {
-    let names = ["a", "b", "c"];
+    let names = ["a", "b"];
     let mut af: AAFramework<String> = AAFramework::default();
     for n in names.iter() {
         af.new_argument(n.to_string());
     }
-    let atts = [(0usize, 1usize), (1, 2), (2, 0), (1, 1)];
+    let atts = [(0usize, 1usize), (1, 1), (1, 0)];
     for (i, j) in atts.iter() {
         af.new_attack(&names[*i].to_string(), &names[*j].to_string()).unwrap();
     }
-    let removed = nd::below(3) as usize;
+    let removed = nd::below(2) as usize;
     af.remove_argument(&names[removed].to_string()).unwrap();
     let mut buf: Vec<u8> = Vec::new();
     let r = AspartixWriter::default().write_framework(&af, &mut buf);
@@ -206,6 +200,9 @@ macro_rules! writer_harness {
 
 writer_harness!(c14_q_iccma_status, 6, status(true));
 writer_harness!(c14_q_apx_status, 6, status(false));
-writer_harness!(c14_q_iccma_extension, 8, iccma_extension());
-writer_harness!(c14_q_apx_extension, 8, apx_extension());
-writer_harness!(c14_q_apx_framework, 12, apx_framework());
+writer_harness!(c14_q_iccma_ext_empty, 6, iccma_extension(0, 1));
+writer_harness!(c14_q_iccma_ext_one, 8, iccma_extension(1, 1000));
+writer_harness!(c14_q_iccma_ext_two, 8, iccma_extension(2, 100));
+writer_harness!(c14_q_apx_ext_a_b1, 8, apx_extension("a", "b1"));
+writer_harness!(c14_t_apx_ext_x_a, 8, apx_extension("_x", "a"));
+writer_harness!(c14_t_apx_framework, 12, apx_framework());
